@@ -14,7 +14,6 @@ import (
 
 	v1 "sigs.k8s.io/karpenter/pkg/apis/v1"
 	"sigs.k8s.io/karpenter/pkg/controllers/disruption"
-	nodeclaimdisruption "sigs.k8s.io/karpenter/pkg/controllers/nodeclaim/disruption"
 	"sigs.k8s.io/karpenter/pkg/controllers/state"
 	"sigs.k8s.io/karpenter/pkg/test"
 
@@ -30,12 +29,14 @@ import (
 //	node      — Node delivered (Node != nil: UpdateNode, else DeleteNode)
 //	mark / unmark / nominate — Cluster.MarkForDeletion / UnmarkForDeletion / NominateNodeForPod
 //	podEvent  — status.lastPodEventTime := now on the stored NodeClaim (as the podevents controller does), delivered
-//	reconcile — the real nodeclaim.disruption controller runs on the stored NodeClaim; the persisted result is delivered
+//	reconcile — the real nodeclaim.disruption controller runs on the stored NodeClaim (F: with a failing drift check /
+//	            NodePool read / status patch); what is persisted afterwards is delivered
 type EvIn struct {
 	K     string   `json:"k"`
 	D     int64    `json:"d"`
 	Claim *ClaimIn `json:"claim,omitempty"`
 	Node  *NodeIn  `json:"node,omitempty"`
+	F     *RFault  `json:"f,omitempty"` // reconcile: the faults injected into that run of the controller
 }
 
 type HistIn struct {
@@ -212,21 +213,8 @@ func implHistory(raw json.RawMessage) (any, error) {
 			}
 		case "reconcile":
 			if h.claim != nil {
-				if h.claim.StatusConditions().Get(v1.ConditionTypeDrifted).IsTrue() {
-					cloud.Drifted = "CloudProviderDrifted"
-				} else {
-					cloud.Drifted = ""
-				}
-				ctrl := nodeclaimdisruption.NewController(h.clk, h.sw, cloud)
-				nc := &v1.NodeClaim{}
-				if err := h.sw.Get(h.ctx, client.ObjectKey{Name: claimName}, nc); err != nil {
-					return nil, err
-				}
-				if _, err := ctrl.Reconcile(h.ctx, nc); err != nil {
-					return nil, fmt.Errorf("nodeclaim.disruption reconcile: %w", err)
-				}
-				got := &v1.NodeClaim{}
-				if err := h.sw.Get(h.ctx, client.ObjectKey{Name: claimName}, got); err != nil {
+				got, err := runClaimController(h.ctx, h.clk, h.sw, cloud, h.claim.StatusConditions().Get(v1.ConditionTypeDrifted).IsTrue(), ev.F)
+				if err != nil {
 					return nil, err
 				}
 				h.claim = got
@@ -382,10 +370,28 @@ func genHistory(r *rand.Rand, t core.Tier) any {
 			in.Events = append(in.Events, EvIn{K: "claim"})
 		case x < 82:
 			in.Events = append(in.Events, EvIn{K: "node"})
-		case x < 90:
+		case x < 87:
 			in.Events = append(in.Events, EvIn{K: "podEvent"})
+		case x < 91:
+			// a pod event, then (after a pause shorter than most consolidateAfter values) the run of the controller that
+			// the pod event triggers — two times out of three with a fault in that run
+			in.Events = append(in.Events, EvIn{K: "podEvent"})
+			if r.IntN(2) == 0 {
+				d := pick(r, int64(1), sec/2, sec, 5*sec)
+				now += d
+				in.Events = append(in.Events, EvIn{K: "tick", D: d})
+			}
+			ev := EvIn{K: "reconcile"}
+			if r.IntN(3) > 0 {
+				ev.F = genFault(r)
+			}
+			in.Events = append(in.Events, ev)
 		default:
-			in.Events = append(in.Events, EvIn{K: "reconcile"})
+			ev := EvIn{K: "reconcile"}
+			if r.IntN(3) == 0 {
+				ev.F = genFault(r)
+			}
+			in.Events = append(in.Events, ev)
 		}
 	}
 	return in
@@ -401,9 +407,27 @@ func historyLabels(raw json.RawMessage, out any) []string {
 		if (k == "claim" && e.Claim == nil) || (k == "node" && e.Node == nil) {
 			k += "-delete"
 		}
+		if k == "reconcile" && !e.F.none() {
+			k += "+fault:" + e.F.label()
+		}
 		if !seen[k] {
 			seen[k] = true
 			l = append(l, "ev:"+k)
+		}
+	}
+	// the circumstance "pod event on a Consolidatable NodeClaim, then a run of the controller whose drift check fails"
+	sawPodEvent := false
+	for _, e := range in.Events {
+		switch e.K {
+		case "podEvent":
+			sawPodEvent = true
+		case "claim":
+			sawPodEvent = false
+		case "reconcile":
+			if sawPodEvent && e.F != nil && e.F.Drift != "" && e.F.Patch == "" && e.F.PoolGet == "" && !seen["podEvent>drift-failing-reconcile"] {
+				seen["podEvent>drift-failing-reconcile"] = true
+				l = append(l, "podEvent>drift-failing-reconcile")
+			}
 		}
 	}
 	if m, ok := out.(map[string]any); ok {
